@@ -23,6 +23,7 @@ import M17.Model.App
 import M17.Model.Demod
 import M17.Model.Ax25
 import M17.Model.TxMod
+import M17.Model.TxModulator
 import M17.Model.Clock
 
 open M17
@@ -247,6 +248,18 @@ def handle (st : DrvState) (op : String) (a : List Int) : DrvState × String :=
     let g := match rest with | [x] => x.toNat | _ => Gen.prbsInitState
     (st, joinInts ((bitsToInts (Prbs.genBits n.toNat g)) ++ [Int.ofNat (Prbs.genState n.toNat g)]))
   | "prbs", toks => (st, prbsScenario toks)
+  | "txm_lsf", ns :: rest =>
+    -- model of M17Modulator::send_link_setup: txm_lsf <nsrc> src... <ndst> dst... prev x46 -> 48 bytes
+    let src := (rest.take ns.toNat).map Int.toNat
+    match rest.drop ns.toNat with
+    | nd :: r =>
+      let dst := (r.take nd.toNat).map Int.toNat
+      (st, joinNats (TxModulator.sendLinkSetup src dst ((r.drop nd.toNat).map Int.toNat)))
+    | [] => (st, "bad-args")
+  | "txm_frame", n :: fn :: rest =>
+    -- model of one stream frame of M17Modulator: txm_frame <lich index> <frame number> lsf x30 payload x16 prevL x12 prevP x34 -> 48 bytes
+    let v := rest.map Int.toNat
+    (st, joinNats (TxModulator.streamFrame (v.take 30) n.toNat fn.toNat ((v.drop 30).take 16) ((v.drop 46).take 12) ((v.drop 58).take 34)))
   | "mod_lsf", _bs :: _inv :: can :: ns :: rest =>
     -- model of m17-mod's send_lsf in bitstream mode (same request as harness/drv_mod.cpp): <30 LSF bytes> | <48 output bytes>
     let src := (rest.take ns.toNat).map Int.toNat
